@@ -63,6 +63,17 @@ CHECKS = {
              "non-chunked images are written once and released (two known findings, stored replays).",
         tech=TECH % ("", "oracle = pixel-array reference model"),
     ),
+    "C10": dict(
+        profile="attrs", cat="exploration", ref="DESIGN.md section 4 C10",
+        text="Seeded search over attribute histories on SD file/dataset/dimension, GR file/image, Vdata/field and "
+             "Vgroup: set and re-set (same and different type/count, 9 number types, counts 1..3000, names sharing "
+             "prefixes), predefined SD metadata (data strings, calibration, range, fill value, dimension "
+             "names/scales/strings) with their dedicated getters, name/index/ref lookups, other objects created in "
+             "between, reopen read-only and read-write. Oracle: ordered attribute-map model (replace keeps the index; a "
+             "refused re-set leaves the old value). 8 000 / 150 000 histories.",
+        note="Trusts the map model; dimensions keep distinct names; three known findings kept out by guards.",
+        tech=TECH % ("", "oracle = ordered attribute-map reference model"),
+    ),
     "C11": dict(
         profile="annot", cat="exploration", ref="DESIGN.md section 4 C11",
         text="Seeded search over annotation histories: the four types through ANcreate/ANcreatef/ANwriteann (texts 1..300 "
